@@ -61,6 +61,8 @@ fn present_in_window(
 pub fn scenario(idx: usize, seed: u64) -> ScenarioResult {
     runner::sim_block_on(|| async move {
         let mut w = World::new(seed);
+        // adversary endpoints must stay alive until the scenario ends (and be dropped then)
+        let mut keep_alive: Vec<Adversary> = Vec::new();
         let mut rng = StdRng::seed_from_u64(seed ^ 0xc03);
         let n = rng.gen_range(3..=5);
         let mut nodes = Vec::new();
@@ -117,7 +119,7 @@ pub fn scenario(idx: usize, seed: u64) -> ScenarioResult {
                         });
                     }
                 });
-                std::mem::forget(adv);
+                keep_alive.push(adv);
             }
         }
         // fault pattern for the handshake window
